@@ -418,4 +418,7 @@ func TestC10(t *testing.T) {
 	p := c10PP
 	p.Checks = n(30, 600)
 	p.Run(t)
+	q := c10Src
+	q.Checks = n(3, 40)
+	q.Run(t)
 }
